@@ -513,11 +513,16 @@ def wrap(
     Also ensures that the `initial_indent` and `subsequent_indent` are not taken into
     account for the wrapping position.
     """
+    # Only ever break lines at whitespace: words are never split, neither at hyphens nor
+    # when they are longer than `width`
+    kwargs.setdefault("break_long_words", False)
+    kwargs.setdefault("break_on_hyphens", False)
     [first, *rest] = [
         line
         for paragraph in text.splitlines()
-        for line in (textwrap.wrap(paragraph, width, **kwargs) if paragraph else [""])
-    ]
+        # `textwrap.wrap` returns no lines at all for whitespace-only paragraphs
+        for line in (textwrap.wrap(paragraph, width, **kwargs) or [""])
+    ] or [""]
     # Manually take care of `initial_indent` and `subsequent_indent` since we don't
     # want them to count towards `width`
     return [initial_indent + first, *(subsequent_indent + line for line in rest)]
